@@ -378,106 +378,48 @@ theorem regLines_codes (code : Code) (ls : List Int) (acc : Core.ESt × Chm) :
 
 structure Own (s : St) : Prop where
   ownV : OwnV s.view
-  /-- unpadded registered bytecodes are in `dupes_map` -/
-  rawInDupes : ∀ p ∈ s.chm, p.1.blk.pad = 0 → (alookup p.1.blk s.dupes).isSome = true
-  /-- a function's current code object is unpadded, or it is a padded one whose lines are all registered -/
-  funcsOk : ∀ f code, alookup f s.funcs = some code → code.blk.pad = 0 ∨ (∀ l ∈ code.allLines, (code.blk, l) ∈ s.core.abs.regs)
 
 theorem init_own : Own St.init := by
-  refine ⟨⟨?_, ?_, ?_, ?_, ?_, ?_⟩, ?_, ?_⟩
+  refine ⟨⟨?_, ?_, ?_, ?_, ?_, ?_⟩⟩
   · intro b c o _; simp [St.view, St.init, abs_init, Core.St.init]
   · intro p hp; cases hp
   · intro p hp; cases hp
   · intro k hk; simp [St.view, St.init, abs_init, Core.St.init] at hk
   · simp [St.view, St.init]
   · intro p hp; cases hp
-  · intro p hp; cases hp
-  · intro f code h; simp [St.init, alookup] at h
 
-theorem funcs_after (s : St) (f : Nat) (code' : Code) (regs' : List (Blk × Int))
-    (hmono : ∀ k ∈ s.core.abs.regs, k ∈ regs') (hreg : ∀ l ∈ code'.allLines, (code'.blk, l) ∈ regs')
-    (h : ∀ g c, alookup g s.funcs = some c → c.blk.pad = 0 ∨ (∀ l ∈ c.allLines, (c.blk, l) ∈ s.core.abs.regs)) :
-    ∀ g c, alookup g (aset f code' s.funcs) = some c → c.blk.pad = 0 ∨ (∀ l ∈ c.allLines, (c.blk, l) ∈ regs') := by
-  intro g c hg
-  by_cases e : g = f
-  · subst e
-    rw [alookup_aset_self] at hg
-    cases hg
-    exact Or.inr hreg
-  · rw [alookup_aset_other _ _ _ _ e] at hg
-    rcases h g c hg with h0 | h1
-    · exact Or.inl h0
-    · exact Or.inr (fun l hl => hmono _ (h1 l hl))
+/-- the code object that `add_function` ends up registering has a bytecode no *other* registered code object has: a duplicate
+    (known to `dupes_map`, or clashing with a registered code object) is padded to a fresh bytecode, anything else was checked
+    against every registered code object — whatever bytecode the function arrived with (no assumption that it is unpadded) -/
+theorem padStep_noOther (s : St) (code : Code) : NoOther (padStep s.dupes (s.chm.map (·.1)) code).1 s.chm := by
+  by_cases hdup : (alookup code.blk s.dupes).isSome = true ∨ clashes (s.chm.map (·.1)) code = true
+  · have hfresh := padStep_fresh s.dupes (s.chm.map (·.1)) code hdup
+    intro p hp hb
+    refine absurd ?_ hfresh
+    rw [← hb]
+    exact List.mem_map.mpr ⟨p.1, List.mem_map.mpr ⟨p, hp, rfl⟩, rfl⟩
+  · have h1 : alookup code.blk s.dupes = none := by
+      cases hd : alookup code.blk s.dupes with
+      | none => rfl
+      | some n => exact absurd (Or.inl (by rw [hd]; rfl)) hdup
+    have h2 : clashes (s.chm.map (·.1)) code = false := by
+      cases hc : clashes (s.chm.map (·.1)) code with
+      | false => rfl
+      | true => exact absurd (Or.inr hc) hdup
+    have he : (padStep s.dupes (s.chm.map (·.1)) code).1 = code := by
+      simp [padStep, h1, h2]
+    rw [he]
+    intro p hp hb
+    unfold clashes at h2
+    rw [List.any_eq_false] at h2
+    have := h2 p.1 (List.mem_map.mpr ⟨p, hp, rfl⟩)
+    simp only [Bool.and_eq_true, decide_eq_true_eq, not_and] at this
+    exact Decidable.byContradiction fun hne => this hne hb
 
-theorem padStep_dup (dupes : List (Blk × Nat)) (taken : List Blk) (code : Code) (n : Nat) (h : alookup code.blk dupes = some n) :
-    (padStep dupes taken code).1.blk.pad ≠ 0 ∧ (padStep dupes taken code).2 = aset code.blk (n + 1) dupes := by
-  simp only [padStep, h]
-  have := findFree_ge taken code.blk.base (maxPad taken + 1) (code.blk.pad + (n + 2))
-  exact ⟨by omega, trivial⟩
-
-theorem padStep_new (dupes : List (Blk × Nat)) (taken : List Blk) (code : Code) (h : alookup code.blk dupes = none) :
-    padStep dupes taken code = (code, dupes ++ [(code.blk, 1)]) := by
-  simp only [padStep, h]
-
-theorem addCode_own (s : St) (f : Nat) (code : Code) (h : Own s) (hf : alookup f s.funcs = some code) :
-    Own (s.addCode f code) := by
-  have hfc := h.funcsOk f code hf
-  unfold St.addCode
-  cases hps : padStep s.dupes (s.chm.map (·.1.blk)) code with
-  | mk code' dupes' =>
-  simp only
-  cases hd : alookup code.blk s.dupes with
-  | some n =>
-    -- a duplicate: padded to a bytecode no code object has
-    have hfresh := padStep_fresh s.dupes (s.chm.map (·.1.blk)) code n hd
-    have hdup := padStep_dup s.dupes (s.chm.map (·.1.blk)) code n hd
-    rw [hps] at hfresh hdup
-    simp only at hfresh hdup
-    have hno : NoOther code' s.chm := by
-      intro p hp hb
-      exact absurd (List.mem_map.mpr ⟨p, hp, hb⟩) hfresh
-    have hown := regLines_own code' code'.allLines (s.core, s.chm) h.ownV hno
-    refine ⟨hown, ?_, ?_⟩
-    · intro p hp hp0
-      rcases regLines_codes code' code'.allLines (s.core, s.chm) p hp with hq | hq
-      · obtain ⟨q, hq1, hq2⟩ := List.mem_map.mp hq
-        have := h.rawInDupes q hq1 (by rw [hq2]; exact hp0)
-        rw [hq2] at this
-        simp only [hdup.2]
-        exact alookup_aset_isSome _ _ _ _ this
-      · rw [hq] at hp0; exact absurd hp0 hdup.1
-    · exact funcs_after s f code' _ (fun k hk => regLines_regs_mono code' _ (s.core, s.chm) k hk)
-        (regLines_registers code' code'.allLines (s.core, s.chm)) h.funcsOk
-  | none =>
-    have hnew := padStep_new s.dupes (s.chm.map (·.1.blk)) code hd
-    rw [hps] at hnew
-    simp only [Prod.mk.injEq] at hnew
-    obtain ⟨hc, hdd⟩ := hnew
-    subst hc
-    have hown : OwnV (code'.allLines.foldl (regLine code') (s.core, s.chm)) := by
-      rcases hfc with h0 | h1
-      · apply regLines_own code' code'.allLines (s.core, s.chm) h.ownV
-        intro p hp hb
-        have := h.rawInDupes p hp (by rw [hb]; exact h0)
-        rw [hb, hd] at this
-        cases this
-      · rw [regLines_noop code' code'.allLines (s.core, s.chm) h1]; exact h.ownV
-    refine ⟨hown, ?_, ?_⟩
-    · intro p hp hp0
-      simp only [hdd]
-      rcases regLines_codes code' code'.allLines (s.core, s.chm) p hp with hq | hq
-      · obtain ⟨q, hq1, hq2⟩ := List.mem_map.mp hq
-        have := h.rawInDupes q hq1 (by rw [hq2]; exact hp0)
-        rw [hq2] at this
-        exact alookup_append_isSome _ _ _ this
-      · rw [hq]; exact alookup_append_new _ _ _
-    · exact funcs_after s f code' _ (fun k hk => regLines_regs_mono code' _ (s.core, s.chm) k hk)
-        (regLines_registers code' code'.allLines (s.core, s.chm)) h.funcsOk
-
-/-- functions come into existence with the bytecode the compiler produced (no NOP padding of ours) -/
-def DeclRaw : Op → Prop
-  | .decl _ code => code.blk.pad = 0
-  | _ => True
+theorem addCode_own (s : St) (f : Nat) (code : Code) (h : Own s) : Own (s.addCode f code) := by
+  have hno := padStep_noOther s code
+  have hown := regLines_own (padStep s.dupes (s.chm.map (·.1)) code).1 (padStep s.dupes (s.chm.map (·.1)) code).1.allLines (s.core, s.chm) h.ownV hno
+  exact ⟨hown⟩
 
 theorem ownV_of_same (v v' : Core.ESt × Chm) (hz : ZeroUnreg v'.1.abs) (hr : v'.1.abs.regs = v.1.abs.regs) (hc : v'.2 = v.2)
     (h : OwnV v) : OwnV v' :=
@@ -486,59 +428,47 @@ theorem ownV_of_same (v v' : Core.ESt × Chm) (hz : ZeroUnreg v'.1.abs) (hr : v'
    fun p hp q hq => by rw [hc] at hp hq; exact h.blkUnique p hp q hq⟩
 
 theorem disable_own (s : St) (t : Nat) (h : Own s) : Own (s.disable t) := by
-  refine ⟨ownV_of_same s.view _ ?_ ?_ rfl h.ownV, h.rawInDupes, ?_⟩
+  refine ⟨ownV_of_same s.view _ ?_ ?_ rfl h.ownV⟩
   · intro b c o hn
     simp only [St.view, St.disable, abs_clearThread] at hn ⊢
     exact h.ownV.zero b c o hn
   · simp only [St.view, St.disable, abs_clearThread]; rfl
-  · intro f code hf
-    simp only [St.disable, abs_clearThread]
-    exact h.funcsOk f code hf
 
-theorem step_own (s : St) (op : Op) (hraw : DeclRaw op) (h : Own s) : Own (s.step op) := by
+theorem step_own (s : St) (op : Op) (h : Own s) : Own (s.step op) := by
   cases op with
-  | decl f code =>
-    refine ⟨h.ownV, h.rawInDupes, ?_⟩
-    intro g c hg
-    simp only [St.step] at hg
-    by_cases e : g = f
-    · subst e; rw [alookup_aset_self] at hg; cases hg; exact Or.inl hraw
-    · rw [alookup_aset_other _ _ _ _ e] at hg; exact h.funcsOk g c hg
+  | decl f code => exact ⟨h.ownV⟩
   | add f =>
     simp only [St.step, St.addFunction]
     cases hf : alookup f s.funcs with
     | none => exact h
-    | some code => exact addCode_own s f code h hf
+    | some code => exact addCode_own s f code h
   | enableBC t =>
     simp only [St.step, St.enableByCount, St.enable]
     by_cases hc : s.count t = 0
-    · simp only [hc, if_true]; exact ⟨h.ownV, h.rawInDupes, h.funcsOk⟩
-    · simp only [hc, if_false]; exact ⟨h.ownV, h.rawInDupes, h.funcsOk⟩
+    · simp only [hc, if_true]; exact ⟨h.ownV⟩
+    · simp only [hc, if_false]; exact ⟨h.ownV⟩
   | disableBC t =>
     simp only [St.step, St.disableByCount]
     split
     · split
-      · exact disable_own _ t ⟨h.ownV, h.rawInDupes, h.funcsOk⟩
-      · exact ⟨h.ownV, h.rawInDupes, h.funcsOk⟩
+      · exact disable_own _ t ⟨h.ownV⟩
+      · exact ⟨h.ownV⟩
     · exact h
-  | enable t => simp only [St.step, St.enable]; exact ⟨h.ownV, h.rawInDupes, h.funcsOk⟩
+  | enable t => simp only [St.step, St.enable]; exact ⟨h.ownV⟩
   | disable t => exact disable_own s t h
   | ev e =>
     simp only [St.step, St.event]
     split
-    · refine ⟨ownV_of_same s.view _ ?_ ?_ rfl h.ownV, h.rawInDupes, ?_⟩
+    · refine ⟨ownV_of_same s.view _ ?_ ?_ rfl h.ownV⟩
       · simp only [St.view, abs_ecb]; exact cb_zeroUnreg _ e h.ownV.zero
       · simp only [St.view, ecb_regs]
-      · intro f code hf
-        simp only [ecb_regs]
-        exact h.funcsOk f code hf
     · exact h
 
-theorem run_own (ops : List Op) (s : St) (hraw : ∀ op ∈ ops, DeclRaw op) (h : Own s) : Own (s.run ops) := by
+/-- the ownership invariant holds after **any** history: functions may arrive with any bytecode (padded by an earlier profiler or not) -/
+theorem run_own (ops : List Op) (s : St) (h : Own s) : Own (s.run ops) := by
   induction ops generalizing s with
   | nil => exact h
-  | cons op r ih =>
-    exact ih (s.step op) (fun o ho => hraw o (List.mem_cons_of_mem _ ho)) (step_own s op (hraw op (List.mem_cons_self ..)) h)
+  | cons op r ih => exact ih (s.step op) (step_own s op h)
 
 /-! ## what `get_stats` sums for a code object is the whole bucket row of its bytecode -/
 
